@@ -492,8 +492,34 @@ class Interp:
                 self.exec_block(mod, st.finalbody, env)
         elif isinstance(st, (ast.Import, ast.ImportFrom)):
             pass  # resolved lazily through the module import table
+        elif isinstance(st, ast.While) and self._is_padding_loop(st):
+            # `while len(xs) < len(ys): xs.append(c)` -- a bounded padding idiom (each round moves one
+            # length one step towards the other); general `while` stays outside the template subset
+            while self.truth(self.eval(mod, st.test, env), mod, st.test):
+                self._tick(st)
+                self.exec_block(mod, st.body, env)
         else:
             self.unsupported(mod, st, 'statement kind outside the template subset')
+
+    @staticmethod
+    def _is_padding_loop(st: ast.While) -> bool:
+        t = st.test
+        if st.orelse or not (isinstance(t, ast.Compare) and len(t.ops) == 1 and isinstance(t.ops[0], (ast.Lt, ast.Gt))):
+            return False
+
+        def len_of(e):
+            if isinstance(e, ast.Call) and isinstance(e.func, ast.Name) and e.func.id == 'len' and len(e.args) == 1 and isinstance(e.args[0], ast.Name):
+                return e.args[0].id
+            return None
+        l, r = len_of(t.left), len_of(t.comparators[0])
+        small = l if isinstance(t.ops[0], ast.Lt) else r
+        if small is None or not (l or isinstance(t.left, (ast.Name, ast.Constant))) or not (r or isinstance(t.comparators[0], (ast.Name, ast.Constant))):
+            return False
+        for b in st.body:
+            if not (isinstance(b, ast.Expr) and isinstance(b.value, ast.Call) and isinstance(b.value.func, ast.Attribute) and b.value.func.attr == 'append'
+                    and isinstance(b.value.func.value, ast.Name) and b.value.func.value.id == small and len(b.value.args) == 1 and isinstance(b.value.args[0], (ast.Name, ast.Constant))):
+                return False
+        return len(st.body) >= 1
 
     def truth(self, v, mod, node):
         if isinstance(v, (ExternalRef, RepoFunc)):
